@@ -24,6 +24,30 @@ func methodChanField(u flow.FuncUnit, mode string) (field string, how string) {
 		return "", ""
 	}
 	recv, _ := info.Defs[fd.Recv.List[0].Names[0]].(*types.Var)
+	// sends inside a select that has a default clause are non-blocking: the signal is lost when nobody is receiving yet
+	nonBlocking := map[*ast.SendStmt]bool{}
+	ast.Inspect(fd.Body, func(n ast.Node) bool {
+		sel, ok := n.(*ast.SelectStmt)
+		if !ok {
+			return true
+		}
+		hasDefault := false
+		for _, c := range sel.Body.List {
+			if cc, ok := c.(*ast.CommClause); ok && cc.Comm == nil {
+				hasDefault = true
+			}
+		}
+		if hasDefault {
+			for _, c := range sel.Body.List {
+				if cc, ok := c.(*ast.CommClause); ok {
+					if ss, ok := cc.Comm.(*ast.SendStmt); ok {
+						nonBlocking[ss] = true
+					}
+				}
+			}
+		}
+		return true
+	})
 	ast.Inspect(fd.Body, func(n ast.Node) bool {
 		switch x := n.(type) {
 		case *ast.CallExpr:
@@ -38,6 +62,9 @@ func methodChanField(u flow.FuncUnit, mode string) (field string, how string) {
 			if mode == "signal" {
 				if f, ok := recvField(info, x.Chan, recv); ok {
 					field, how = f, "send"
+					if nonBlocking[x] {
+						how = "non-blocking send"
+					}
 				}
 			}
 		case *ast.UnaryExpr:
@@ -148,7 +175,8 @@ func checkC14(p *core.Program, r *core.Report) {
 	r.AnalysedFn(reqU.Name, awaitU.Name)
 	stopField, how := methodChanField(reqU, "signal")
 	closedField, _ := methodChanField(awaitU, "wait")
-	r.Check(stopField != "", "O14.2", "RequestStop: signals the stop channel", p.Pos(reqU.Node.Pos()), fmt.Sprintf("%s(%s)", how, stopField), "RequestStop neither closes nor sends on a channel field of the job")
+	r.Check(stopField != "" && how != "non-blocking send", "O14.2", "RequestStop: signals the stop channel", p.Pos(reqU.Node.Pos()), fmt.Sprintf("%s(%s)", how, stopField),
+		fmt.Sprintf("RequestStop does not reliably signal a channel field of the job (%s %s): a non-blocking send is lost when the waiting goroutine has not reached its receive yet, so a stop that precedes start-up is never seen", how, stopField))
 	r.Check(closedField != "" && closedField != stopField, "O14.2", "AwaitStop: waits for the closed channel", p.Pos(awaitU.Node.Pos()), "receive on "+closedField, fmt.Sprintf("AwaitStop does not receive on a channel field distinct from the stop channel (got %q, stop is %q)", closedField, stopField))
 	if stopField == "" || closedField == "" {
 		return
